@@ -46,7 +46,9 @@ def shape_of_prog(prog):
     (inside the standard library) or of process deaths."""
     t = re.sub(r'"(?:[^"\\]|\\.)*"', "S", prog)
     t = re.sub(r"(?<![\w.$@])-?(?:infinite|nan|\d+(?:\.\d+)?(?:e[+-]?\d+)?)\b", "N", t)
-    if re.search(r"S \* \(?N|N \* S|^\. \* N", t):
+    t2 = t.replace(" ", "")
+    # a string-valued operand (literal, @format applied to the input, the input itself) times a number
+    if re.search(r"(?:S|@\w+|^\.)\*\(?N|N\*(?:S|@\w+)", t2):
         return "string * number"
     return t[:80]
 
@@ -109,3 +111,23 @@ def run(ctx):
         "sandbox limit and wall-clock overruns are inconclusive",
         "out-of-bounds accesses in unsafe code that do not trap are invisible (Miri/ASan would be a different technique)",
     ]
+
+
+# MUTANTS (same scratch worktree as C19: HEAD + hooks/FIX-*.patch + all mutants; one
+# `VERIF_REPO=/tmp/wt-c19 ./check C30` quick run, exit 1, each mutant visible under its own signature;
+# the string-repetition and parser known findings no longer fired with the fixes applied):
+#  N1 src/jq/eval.rs pad_with_nulls: `try_reserve(..).map_err(cannot_grow_array)` removed, plain
+#     `resize` (reintroduces `capacity overflow` in setpath padding)
+#       -> CAUGHT  `capacity overflow` panics for `.[1e19] = 1`, `setpath([1e19]; 9)`, `.[N] |= 5`, `.[N] += 1`,
+#          to_entries/.[N]=..., reduce/setpath, and process ABORTS (SIGABRT, `memory allocation of
+#          648518346341351568 bytes failed`) for `setpath([0, 9007199254740993, infinite]; 9)` in both evaluators
+#          (observed by the worker supervisor: 8 alloc_impossible deaths)
+#  N2 src/jq/eval.rs builtin_implode: `.unwrap_or('\u{FFFD}')` -> `.unwrap()`
+#       -> CAUGHT  jq.eval panic at eval.rs:8434 (`[1e19] | implode`, `[-1] | implode`)
+#  N3 src/jq/slice.rs clamp: upper clamp `folded >= len` dropped
+#       -> CAUGHT  `range start/end index .. out of range` panics at eval.rs:12311, eval_generic.rs:3865 and
+#          core slice index for `.[infinite:infinite]`, `.[nan:infinite] = ["x"]`, `del(.[-0:9007199254740993])`
+#  M3 src/jq/parser.rs: `unwrap()` on a backslash at the end of a string literal
+#       -> CAUGHT  jq.parse panic at parser.rs:579 on the token soup `"\`
+#  natural mutants of the unchanged tree found by the first run: string repetition `"ab" * 1e19`
+#  (capacity overflow) / `"ab" * 9007199254740993` (SIGABRT), jq parser `-é`.
